@@ -205,20 +205,23 @@ Section Bag.
           symmetry. now apply He.
   Qed.
 
+  Lemma select_bound sels : forall b1, (forall s x, In s sels -> In x (opnd_vars s) -> bound b1 x = true) ->
+    select W D sels b1 = [map (den W (asg_of b1)) sels].
+  Proof.
+    induction sels as [|s sels IH]; intros b1 Hb; [reflexivity|].
+    cbn [select map]. rewrite (EvalQTotal.ev_opnd_total W D s b1) by (intros x Hx; apply (Hb s x); simpl; auto).
+    cbn [flat_map fst snd]. rewrite IH by (intros s' x Hs' Hx; apply (Hb s' x); simpl; auto). reflexivity.
+  Qed.
+
   Lemma select_total b1 : In b1 TR ->
     select W D (q_sels q) b1 = [map (den W (asg_of (norm vs b1))) (q_sels q)].
   Proof.
-    intros H. unfold select.
-    assert (E : map (fun s => map snd (ev_opnd W D s b1)) (q_sels q)
-                = map (fun x => [x]) (map (den W (asg_of (norm vs b1))) (q_sels q))).
-    { rewrite map_map. apply map_ext_in. intros s Hs.
-      assert (Hb : forall x, In x (opnd_vars s) -> bound b1 x = true).
-      { intros x Hx. assert (Hv : In x vs).
-        { apply vs_iff, Hroots. apply in_flat_map. eauto. }
-        destruct (TR_total b1 H x Hv) as (v & Hl & _). unfold bound. now rewrite Hl. }
-      rewrite (EvalQTotal.ev_opnd_total W D s b1 Hb). simpl. f_equal.
-      apply den_ext. intros x Hx. symmetry. apply asg_norm. apply vs_iff, Hroots. apply in_flat_map. eauto. }
-    rewrite E. apply product_singletons.
+    intros H.
+    assert (Hv : forall s x, In s (q_sels q) -> In x (opnd_vars s) -> In x vs).
+    { intros s x Hs Hx. apply vs_iff, Hroots. apply in_flat_map. eauto. }
+    rewrite select_bound.
+    - f_equal. apply map_ext_in. intros s Hs. apply den_ext. intros x Hx. symmetry. apply asg_norm. eauto.
+    - intros s x Hs Hx. destruct (TR_total b1 H x (Hv s x Hs Hx)) as (v & Hl & _). unfold bound. now rewrite Hl.
   Qed.
 
   (* exactly one row per satisfying assignment: the rows are a permutation of the Spec's enumeration *)
